@@ -319,6 +319,7 @@ def k_hier_table(ctx, rows, cols, method, t, index=None, legacy=False):
             data["CDR3B"] = [r[1] for r in rows]
         x = pd.DataFrame(data)
         x["meta"] = range(len(rows))
+        x["TRBJ"] = [None if i % 3 == 0 else "TRBJ2-1*01" for i in range(len(rows))]      # unresolved J calls: not read by the CDR3 metrics
         if index == "string":
             x.index = [f"k{i}" for i in range(len(rows))]
             ctx.count("hier_nondefault_index")
